@@ -317,6 +317,79 @@ def check_query(acc, net, c, fc, tab):
                                             {'model': model, 'satisfying_assignments': sat_assignments[:4]}), where='is_circuit_satisfiable')
 
 
+def deep_net(r, n, k):
+    """large circuit with LOCALITY: operands mostly among the last few nodes, so the cone of the last gates is deep, covers most
+    of the circuit and re-converges all the time (a gate and a member of its own cone as operands of one gate, in both orders)"""
+    ins = [f'x{i}' for i in range(n)]
+    gates = [(x, ('INPUT', ())) for x in ins]
+    nodes = list(ins)
+    for i in range(k):
+        t = r.choice(G.ALL_TYPES)
+        a = r.choice(G.arities(t, 3))
+        ops = tuple(r.choice(nodes[-6:]) if r.random() < 0.8 else r.choice(nodes) for _ in range(a))
+        gates.append((f'g{i}', (t, ops)))
+        nodes.append(f'g{i}')
+    outs = [nodes[-1], nodes[-2], r.choice(nodes)]
+    r.shuffle(gates)
+    return N.Net(ins, outs, dict(gates))
+
+
+# ------------------------------------------------------------------- large circuits (solver oracle) ----
+def check_large(acc, net, r, n_assign=8):
+    """Circuits far beyond brute force (tens to hundreds of gates): behaviour that only changes beyond some size - another
+    traversal for big circuits, a recursion guard - is invisible on <=7 gates.  Oracle: for sampled total input assignments
+    and two output selections the CNF plus the input units is handed to z3 (used as a plain SAT solver): satisfiable iff
+    every selected output is True under den(), and then the satisfying extension is unique (blocking clause -> unsat)."""
+    import z3
+    from cirbo.sat.cnf import tseytin_transformation
+    try:
+        c = N.build(net)
+    except Exception as e:
+        acc.violation('C05/setup/build', 'build-raises', M.exc_str(e), {'netlist': net.to_json()})
+        return
+    n = len(net.inputs)
+    m = len(net.outputs)
+    sels = [None] + ([[r.randrange(m)]] if m else [])
+    asg = [tuple(r.random() < 0.5 for _ in range(n)) for _ in range(n_assign)] + [tuple([False] * n), tuple([True] * n)]
+    for sel in sels:
+        sel_labels = [net.outputs[i] for i in (range(m) if sel is None else sel)]
+        try:
+            clauses = [list(cl) for cl in tseytin_transformation(c, None if sel is None else list(sel)).get_raw()]
+        except Exception as e:
+            report(acc, net, sel, sel_labels, None, ('no-exception', 'raises-' + type(e).__name__, {'exception': M.exc_str(e)}))
+            continue
+        nv = nv_of(clauses, n)
+        xs = [z3.Bool(f'v{k + 1}') for k in range(nv)]
+        lit = lambda l: xs[l - 1] if l > 0 else z3.Not(xs[-l - 1])          # noqa: E731
+        sol = z3.Solver()
+        for cl in clauses:
+            sol.add(z3.Or([lit(l) for l in cl]) if cl else z3.BoolVal(False))
+        for x in asg:
+            val = N.den_all(net, dict(zip(net.inputs, x)))
+            exp = all(val[o] for o in sel_labels)
+            sol.push()
+            for k, b in enumerate(x):
+                sol.add(xs[k] if b else z3.Not(xs[k]))
+            st = sol.check()
+            acc.case(NAME, key=(net.key(), 'large', None if sel is None else tuple(sel), x), nontrivial=True)
+            bad = None
+            if st == z3.sat and not exp:
+                bad = ('sat-iff-outputs-true', 'sat-although-output-false', {'assignment': list(x), 'gates': len(net.gates)})
+            elif st == z3.unsat and exp:
+                bad = ('sat-iff-outputs-true', 'unsat-although-outputs-true', {'assignment': list(x), 'gates': len(net.gates)})
+            elif st == z3.sat:
+                mdl = sol.model()
+                sol.add(z3.Or([xs[k] != bool(mdl.eval(xs[k], model_completion=True)) for k in range(nv)]))
+                if sol.check() == z3.sat:
+                    bad = ('extension-unique', 'several-extensions', {'assignment': list(x), 'gates': len(net.gates)})
+            sol.pop()
+            if bad:
+                small = {'kind': 'bounded', 'netlist': net.to_json(), 'output_selection': sel, 'failed_clause': bad[0], 'observation': bad[1],
+                         'detail': bad[2], 'entry_point': 'tseytin_transformation', 'oracle': 'z3 as SAT solver on CNF + input units'}
+                acc.violation(f'C05/tseytin_transformation/{bad[0]}', bad[1] + '-large-circuit', f'{bad[1]} on a circuit with {len(net.gates)} nodes: {bad[2]}; selection {sel}', small)
+                return
+
+
 def with_outputs(net, outs):
     return N.Net(net.inputs, outs, net.gates)
 
@@ -331,6 +404,11 @@ def _nets(chunk, r):
         alphabet = list(S.CONST) if (n_in == 0 and k > 0) else G.ALL_TYPES
         it = G.enum_nets(n_in, k, alphabet, max_nary=max_nary, outputs='all')
         yield from (M.stride_sample(it, stride, offset) if stride > 1 else it)
+    elif kind == 'large':
+        _, idx, sizes = chunk
+        for k in sizes:
+            yield ('large', G.random_net(r, n_inputs=r.randint(3, 6), k_gates=k, max_nary=3, max_outputs=4))
+            yield ('large', deep_net(r, r.randint(3, 6), min(k, 800)))      # recursion depth of the real code stays far below the interpreter limit
     elif kind == 'random':
         _, idx, count = chunk
         for _ in range(count):
@@ -345,6 +423,10 @@ def work(acc, chunk):
     chunk = chunk[:-2]
     r = M.rng('C05', *chunk)
     for i, net in enumerate(_nets(chunk, r)):
+        if isinstance(net, tuple):
+            if all(S.arity_ok(t, len(o)) for t, o in net[1].gates.values()):
+                check_large(acc, net[1], r)
+            continue
         if any(not S.arity_ok(t, len(o)) for t, o in net.gates.values()):
             continue
         check_net(acc, net, r, quick, do_query=(i % query_stride == 0))
@@ -364,7 +446,8 @@ def run_bounded(rep, quick):
                'dead gates, unused inputs, repeated outputs, no outputs; all 2^nv valuations of the CNF (nv<=12) enumerated: #extensions of every input '
                'assignment is 1 iff all selected outputs are True under den() of vlib/spec else 0; gate values matched to variables; Cnf.from_circuit equivalent; '
                'non-trivial = non-empty selection on a circuit with a non-input gate',
-               'K<=2 enumerated, random K<=7, <=12 CNF variables', exhaustive=False)
+               'K<=2 enumerated, random K<=7, <=12 CNF variables; plus large circuits (quick: 40, 150, 520, 700 gates; thorough: 64 circuits up to 1100 gates) '
+               'checked on 10 sampled input assignments x 2 selections with z3 as SAT oracle (sat iff outputs true, unique extension)', exhaustive=False)
     acc.driver(NAME_Q, 'real is_circuit_satisfiable (pysat replaced by the z3-backed shim) on a subsample of the same circuits: answer iff some assignment makes every output '
                        'True; model satisfies Cnf.from_circuit and projects onto such an assignment', 'subsample of the circuits above', exhaustive=False)
     if quick:
@@ -372,6 +455,7 @@ def run_bounded(rep, quick):
         chunks += [('enum', n, k, 3, 1, 0, True, 4) for n in (0, 1, 2) for k in (0, 1)]
         chunks += [('enum', 3, 1, 4, 2, 1, True, 16), ('enum', 1, 2, 3, 5, 2, True, 16), ('enum', 2, 2, 3, 7, 3, True, 64)]
         chunks += [('random', i, 120, True, 3) for i in range(2)]
+        chunks += [('large', 0, (40, 150, 520, 700), True, 1)]
     else:
         chunks = [('single', False, 1)]
         chunks += [('enum', n, k, 3, 1, 0, False, 2) for n in (0, 1, 2) for k in (0, 1)]
@@ -379,6 +463,7 @@ def run_bounded(rep, quick):
         chunks += [('enum', 2, 2, 3, 16, off, False, 40) for off in range(16)]
         chunks += [('enum', 3, 2, 3, 32 * 6, off * 6, False, 40) for off in range(32)]
         chunks += [('random', i, 300, False, 3) for i in range(32)]
+        chunks += [('large', i, (30 + 7 * i, 200 + 11 * i, 510 + 13 * i, 1100), False, 1) for i in range(16)]
     faulty_templates()           # computed once in the parent (inherited by forked workers)
     total = M.run_chunks(work, chunks, parallel=not quick)
     acc.merge(total)
